@@ -1,17 +1,40 @@
 //! Execution of one case in one mode (direct / through an `AbiConnection`) and the oracles that
 //! compare the two runs.
-use crate::cases::{model_block, Case};
+use crate::cases::{model_arg_size, model_block, pointer_size, Case};
 use vabi09fam::support::*;
 use std::collections::BTreeMap;
 use std::panic::{catch_unwind, AssertUnwindSafe};
 use vcommon::serde_json::{json, Map, Value};
 use vcommon::Violation;
 
+/// Every trait of the family (the generated shards in the canonical order of the generator,
+/// then the async member).
+fn trait_table() -> &'static Vec<&'static TraitMeta> {
+    static TABLE: std::sync::OnceLock<Vec<&'static TraitMeta>> = std::sync::OnceLock::new();
+    TABLE.get_or_init(|| {
+        let mut v: Vec<&'static TraitMeta> = vabi09fam_s0::TRAITS
+            .iter()
+            .chain(vabi09fam_s1::TRAITS.iter())
+            .chain(vabi09fam_s2::TRAITS.iter())
+            .chain(vabi09fam_s3::TRAITS.iter())
+            .chain(vabi09fam_s4::TRAITS.iter())
+            .chain(vabi09fam_s5::TRAITS.iter())
+            .collect();
+        v.sort_by_key(|t| t.ord);
+        // every generated trait is compiled into exactly one shard
+        let complete = v.len() == vabi09fam::family::N_TRAITS && v.iter().enumerate().all(|(i, t)| t.ord == i);
+        if !complete {
+            vcommon::machinery_error(&format!("the shard crates hold {} traits, the generator enumerates {}", v.len(), vabi09fam::family::N_TRAITS));
+        }
+        v.extend(vabi09fam::asyncfam::TRAITS.iter());
+        v
+    })
+}
 pub fn find_trait(name: &str) -> Option<&'static TraitMeta> {
-    vabi09fam::family::TRAITS.iter().chain(vabi09fam::asyncfam::TRAITS.iter()).find(|t| t.name == name)
+    trait_table().iter().copied().find(|t| t.name == name)
 }
 pub fn all_traits() -> impl Iterator<Item = &'static TraitMeta> {
-    vabi09fam::family::TRAITS.iter().chain(vabi09fam::asyncfam::TRAITS.iter())
+    trait_table().iter().copied()
 }
 
 /// run `f` with the panic hook silenced, returning the panic payload rendered as text
@@ -303,6 +326,11 @@ pub fn check_case(tm: &'static TraitMeta, mi: usize, case: &Case, st: &mut Stats
     let spilled = flex && size > 64;
     let mut by_ref = false;
     let mut ser_ref = false;
+    // a serialized reference whose encoding is larger than the pointer / fat pointer it would
+    // be between layout-stable types; and the same where every OTHER argument has a
+    // compile-time known size (only the reference keeps the method off the fixed stack array)
+    let mut ser_ref_big = false;
+    let mut ser_ref_big_among_sized = false;
     for (i, k) in mm.args.iter().enumerate() {
         let meta = arg_kind(k);
         if meta.is_ref && !meta.closure && !matches!(*k, "str" | "rt2" | "rmt2") {
@@ -310,6 +338,12 @@ pub fn check_case(tm: &'static TraitMeta, mi: usize, case: &Case, st: &mut Stats
                 by_ref = true;
             } else {
                 ser_ref = true;
+                if model_arg_size(k, &case.args[i], false) > pointer_size(k) {
+                    ser_ref_big = true;
+                    if mm.args.iter().enumerate().all(|(j, o)| j == i || arg_kind(o).fixed) {
+                        ser_ref_big_among_sized = true;
+                    }
+                }
             }
             st.add(&format!("byref.{}.{}", k, abi.passable[i]), 1);
         }
@@ -329,6 +363,15 @@ pub fn check_case(tm: &'static TraitMeta, mi: usize, case: &Case, st: &mut Stats
     if ser_ref {
         st.add("nt.reference_serialized", 1);
     }
+    if ser_ref_big {
+        st.add("nt.serialized_reference_larger_than_pointer", 1);
+    }
+    if ser_ref_big_among_sized {
+        st.add("nt.serialized_reference_larger_than_pointer_all_other_args_sized", 1);
+    }
+    if !flex && !mm.args.is_empty() {
+        st.add("nt.fixed_stack_block", 1);
+    }
     if owned {
         st.add("nt.owned_object", 1);
     }
@@ -338,7 +381,7 @@ pub fn check_case(tm: &'static TraitMeta, mi: usize, case: &Case, st: &mut Stats
     if is_future {
         st.add("nt.future", 1);
     }
-    if spilled || by_ref || ser_ref || owned || case.panic != "none" || is_future {
+    if spilled || by_ref || ser_ref || owned || case.panic != "none" || is_future || (!flex && !mm.args.is_empty()) {
         st.add("nontrivial", 1);
     }
 
